@@ -207,12 +207,12 @@ def work(task):
             # set_values(coord=area): upper-left corner is used
             s2 = build()
             try:
-                s2.table.set_values([[55, 56]], coord=coord)
+                s2.table.set_values([[55, 56], [], [57]], coord=coord)
                 r = ("ok", s2.table.get_values())
             except Exception as e:
                 r = ("raises", type(e).__name__)
             m2 = m.copy()
-            m2.set_block(x, y, [[(55, 1), (56, 1)]])
+            m2.set_block(x, y, [[(55, 1), (56, 1)], [], [(57, 1)]])
             if r != ("ok", m2.matrix()):
                 fail("set_values", form, ("ok", m2.matrix()), r, "form-disagrees", f",{inner}")
     # ---- partial forms
